@@ -14,7 +14,9 @@ RULE = ('(a) bounded-exhaustive token soups over the 46-token LaTeX-significant 
         '(d) tolerant parses of the same soups, in-range/nesting part only. Oracle: span checker '
         '(top-level tiling of [0,len), node-list span, child containment/order/no overlap, body '
         'tiling of groups/math/environments, chars/comment text = source slice, delimiter/name '
-        'anchoring, concatenated latex_verbatim() = input). Non-trivial = input parses strictly '
+        'anchoring, concatenated latex_verbatim() = input); (e) the context of the less common '
+        'parser classes (extra); (f) thorough tier: atheris campaigns whose target runs the same '
+        'oracle. Non-trivial = input parses strictly '
         'and its tree has >= 2 nodes of which >= 1 is not a chars node; distinct by source string '
         '(enumerated strings are distinct by construction).')
 ASSUMPTIONS = [
